@@ -3,6 +3,7 @@ import AiutiVerif.Batcher.Invariant
 import AiutiVerif.Batcher.NoDup
 import AiutiVerif.Batcher.Cancel
 import AiutiVerif.Batcher.Answer
+import AiutiVerif.Batcher.Window
 /-!
 # Batcher property theorems (C04, C09, C10, C11)
 
@@ -394,6 +395,63 @@ theorem C11_pending_work_distinct (s0 : St) (hf : Fresh2 s0) (ins : List In) :
 /-- three calls for one key inside the retention window: one piece of work, one batch -/
 example : (runProgram { maxb := 3, maxc := 1, bt := 10, ret := 100, plan := demoPlanK }
     [.call 0 0 0 7, .call 1 1 0 7, .call 50 2 0 7, .call 500 3 0 7]).batchLog = [(1, 3), (1, 3)] := by decide +kernel
+
+/-! ## C11 — the retention window: *when* a key is remembered   (`Batcher/Window.lean`)
+
+The machine records, in a ghost field, the instant at which every future was answered.  For every
+freshly constructed batcher, every configuration, every plan of the batch function and every list of
+timed inputs (calls, cancellations, `max_batch_size` mutations), at every instant: -/
+
+/-- **`retention_timeout = 0`: nothing is remembered once it has been answered.**  Whatever the
+retention table holds is still pending. -/
+theorem C11_retention_zero_forgets (s0 : St) (hf : Fresh4 s0) (hz : s0.ret = 0) (ins : List In) :
+    ∀ e ∈ (ins.foldl applyIn s0).retention, futState (ins.foldl applyIn s0) e.2 = none := by
+  refine zero_forgets (foldl_applyIn_T ins s0 (T_fresh s0 hf)) ?_
+  rw [foldl_applyIn_ret]
+  exact hz
+
+/-- **A call that arrives after the window never receives the old result.**  An input arrives at `t`
+and the machine has fired every timer due before `t` (`advanceDone`: it did not run out of fuel - the
+driver reports if it ever does).  Every remembered future that has its answer at that moment was
+answered at an instant `c` with `t ≤ c + retention_timeout`; a call for a key answered longer ago finds
+nothing remembered, so it is new work with a new future (`C11_fresh_adds_work`). -/
+theorem C11_old_result_only_within_window (s0 : St) (hf : Fresh4 s0) (ins : List In) (t : Nat)
+    (hd : advanceDone fuelDefault t true (ins.foldl applyIn s0) = true) :
+    let s := arrive (ins.foldl applyIn s0) t
+    ∀ e ∈ s.retention, futState s e.2 ≠ none → ∃ c, (e.2, e.1, c) ∈ s.doneAt ∧ t ≤ c + s.ret ∧ c ≤ s.now :=
+  old_result_only_within_window _ (foldl_applyIn_T ins s0 (T_fresh s0 hf)) t hd
+
+/-- **Inside the window the answer stays remembered.**  At any instant of any run let key `k` be
+remembered with a future `g` that has its answer; it was answered at some `c` (`T`).  An input arriving
+at any `t ≤ c + retention_timeout` still finds `(k, g)` remembered - batches may have started, run and
+finished, other keys may have expired in between -, so if it is a call for `k` it is served from `g`
+and adds no work (`C11_shared_adds_no_work`, `C11_sharer_adds_no_work`).  (At `t = c + retention_timeout`
+exactly the machine flags a tie between the timer and the input; the implementation decides that instant
+with `>=`: new work.) -/
+theorem C11_remembered_throughout_window (s0 : St) (hf : Fresh4 s0) (ins : List In) (k g : Nat)
+    (hm : (k, g) ∈ (ins.foldl applyIn s0).retention) (hd : futState (ins.foldl applyIn s0) g ≠ none) :
+    ∃ c, (g, k, c) ∈ (ins.foldl applyIn s0).doneAt ∧ c ≤ (ins.foldl applyIn s0).now ∧
+      ∀ t, t ≤ c + (ins.foldl applyIn s0).ret → (k, g) ∈ (arrive (ins.foldl applyIn s0) t).retention := by
+  have hT := foldl_applyIn_T ins s0 (T_fresh s0 hf)
+  have hR := foldl_applyIn_Rq ins s0 (Rq_fresh s0 hf.1.1)
+  obtain ⟨c, a, b, d⟩ := retained_answered_has_timer hT k g hm hd
+  refine ⟨c, a, d, ?_⟩
+  intro t ht
+  exact (answered_stays_until_timer fuelDefault t _ hR hT k g _ hm b ht).1
+
+/-- non-vacuity: key 7 asked at 0, answered at 15 (`batch_timeout` 10 + 5 per item), `retention_timeout`
+100: at t = 50 it is remembered with its answer, recorded as answered at 15, timer at 115; at t = 500
+nothing is remembered and the machine had not run out of fuel -/
+def windowSt : St := { maxb := 3, maxc := 1, bt := 10, ret := 100, plan := demoPlanK }
+def windowIns : List In := [.call 0 0 0 7, .call 50 1 0 7]
+example : Fresh4 windowSt := by simp [Fresh4, Fresh3, Fresh2, Fresh, windowSt]
+example : (windowIns.foldl applyIn windowSt).retention = [(7, 0)] ∧
+    futState (windowIns.foldl applyIn windowSt) 0 = some (.ok 7 0 0) ∧
+    (windowIns.foldl applyIn windowSt).doneAt = [(0, 7, 15)] ∧
+    (windowIns.foldl applyIn windowSt).evict = [(115, 7)] := by decide +kernel
+example : advanceDone fuelDefault 500 true (windowIns.foldl applyIn windowSt) = true := by decide +kernel
+example : (arrive (windowIns.foldl applyIn windowSt) 500).retention = [] := by decide +kernel
+example : (arrive (windowIns.foldl applyIn windowSt) 115).retention = [(7, 0)] := by decide +kernel
 
 /-! ## C10 — size, slots, FIFO: for every program of inputs, at every instant
 
